@@ -566,13 +566,10 @@ func (vc *VC) wfAssume(st *State, v Term, t types.Type, depth int) Term {
 	switch u := t.Underlying().(type) {
 	case *types.Basic:
 		if ii, ok := intInfoOf(t); ok && !vc.bv {
-			if ii.bits <= 32 || !ii.signed {
-				if ii.bits <= 32 {
-					return rangeAssume(v, ii)
-				}
-				return Le(IntLit(0), v)
+			if isUntyped(t) {
+				return True
 			}
-			return True
+			return rangeAssume(v, ii)
 		}
 		if u.Info()&types.IsString != 0 {
 			return Le(IntLit(0), App(SInt, "strlen", v))
